@@ -7,7 +7,7 @@
 From Hive.Base Require Import Prelude.
 From Hive.Model Require Import Types KernelBase SimOps States Step.
 From Hive.Gen Require Import Kernels.
-From Hive.Proofs Require Import Guards Member.
+From Hive.Proofs Require Import Guards Member VehFrame.
 
 Theorem C10_grant_access_meaning : forall e v : Membership,
   grant_access_to_membership e v = true <-> e = [] \/ exists f, In f e /\ In f v.
@@ -21,6 +21,11 @@ Theorem C10_enter_checks_membership : forall env vid st s s', vs_enter env (vid,
      (st' = st \/ exists sid cid r, st = DispatchStation sid cid r /\ st' = ChargingStation sid cid).
 Proof. exact vs_enter_guard. Qed.
 
+(* a vehicle's membership never changes over any history (so access established at enter() time stays established) *)
+Theorem C10_membership_constant_over_histories : forall env ops s0, vkeys s0 -> forall vid v0, find vid (vehicles s0) = Some v0 ->
+  exists v, find vid (vehicles (fold_left (step_op env) ops s0)) = Some v /\ v_mem v = v_mem v0.
+Proof. intros env ops s0 K vid v0 F. destruct (history_vehicle_frame env ops s0 K vid v0 F) as (v & Fv & _ & M & _). eauto. Qed.
+Print Assumptions C10_membership_constant_over_histories.
 Print Assumptions C10_grant_access_meaning.
 Print Assumptions C10_grant_access_id_meaning.
 Print Assumptions C10_enter_checks_membership.
